@@ -266,11 +266,59 @@ func (c *Ctx) decide(conds []*Term, pos token.Pos) int {
 	}
 	var models = make([]*Model, len(conds))
 	nInfeasible := 0
+	if len(conds) > 6 {
+		// many alternatives (case split of a length or index): instead of one query per
+		// alternative, ask for a model of the disjunction of the undecided ones; every alternative
+		// true under the model is feasible; when the disjunction is unsat all of them are infeasible.
+		for round := 0; round <= len(conds); round++ {
+			var rest []*Term
+			for i, cd := range conds {
+				if cd == TFalse {
+					known[i] = -1
+				}
+				if known[i] == 0 {
+					rest = append(rest, cd)
+				}
+			}
+			if len(rest) == 0 {
+				break
+			}
+			disj := TFalse
+			for _, cd := range rest {
+				disj = Or(disj, cd)
+			}
+			r, m := c.check(disj)
+			if r == Unsat {
+				for i := range conds {
+					if known[i] == 0 {
+						known[i] = -1
+					}
+				}
+				break
+			}
+			if r != Sat || m == nil {
+				break // fall back to one query per alternative below
+			}
+			progress := false
+			for i, cd := range conds {
+				if known[i] == 0 {
+					if b, ok := m.TryEvalBool(cd); ok && b {
+						known[i] = 1
+						models[i] = m
+						progress = true
+					}
+				}
+			}
+			if !progress {
+				break
+			}
+		}
+	}
 	for i, cd := range conds {
 		if cd == TFalse {
 			known[i] = -1
 		}
-		if known[i] == 1 {
+		if known[i] == 1 && models[i] == nil {
 			models[i] = c.model
 		}
 		if known[i] == 0 {
